@@ -615,18 +615,18 @@ func (p *Pkg) analysePkgVars(fn string, node ast.Node, out *factsOut) {
 // ---------- part (b): receiver-field events ----------
 
 type recvWalker struct {
-	p      *Pkg
-	recv   types.Object        // receiver (or tracked parameter) object
-	fields map[string]bool     // field names of the receiver struct
-	meths  map[string]bool     // method names of the receiver type
-	others map[types.Object]string // other local variables/params of tracked types -> "Type"
-	shared map[types.Object]bool   // of those: possibly the caller's object
-	parIdx map[types.Object]int    // of those: parameters of this function -> index
-	ifacePar map[types.Object]bool // parameters declared as codec.Parameters (the caller's object behind an interface)
-	alias  map[types.Object]string // local variables holding (part of) a reference-typed receiver field -> field
-	retFresh map[types.Object]bool // functions of this package that always return a new object
-	errRes bool
-	ev     []event
+	p        *Pkg
+	recv     types.Object            // receiver (or tracked parameter) object
+	fields   map[string]bool         // field names of the receiver struct
+	meths    map[string]bool         // method names of the receiver type
+	others   map[types.Object]string // other local variables/params of tracked types -> "Type"
+	shared   map[types.Object]bool   // of those: possibly the caller's object
+	parIdx   map[types.Object]int    // of those: parameters of this function -> index
+	ifacePar map[types.Object]bool   // parameters declared as codec.Parameters (the caller's object behind an interface)
+	alias    map[types.Object]string // local variables holding (part of) a reference-typed receiver field -> field
+	retFresh map[types.Object]bool   // functions of this package that always return a new object
+	errRes   bool
+	ev       []event
 }
 
 func (w *recvWalker) add(kind, name string, depth int) {
